@@ -681,7 +681,11 @@ func (mgr *Manager) importPcapJob(filenames []string, nextStreamID uint64, exist
 			mgr.resetStreamsDuringTaggingJob.Or(*resetStreams)
 			mgr.addedStreamsDuringTaggingJob.Or(*addedStreams)
 			mgr.invalidateTags(*updatedStreams, *resetStreams, *addedStreams)
-			mgr.invalidateConverters(updatedStreams)
+			// converter output is stale for every stream whose data changed: extended by the new
+			// captures (updated) or rebuilt because older packets arrived (reset)
+			changedStreams := updatedStreams.Copy()
+			changedStreams.Or(*resetStreams)
+			mgr.invalidateConverters(&changedStreams)
 		}
 		// remove finished job from queue
 		mgr.importJobs = mgr.importJobs[processedFiles:]
